@@ -86,7 +86,8 @@ def programs_contiguous(tier):
             # keep the classic boundaries and a deterministic spread of the word-boundary cases
             keep = pl[:7] + pl[7::max(1, (len(pl) - 7) // 7)][:7]
             pl = keep
-        props = ["C01", "C02", "C16", "C06"] + (["C11"] if b not in NATIVE else []) + ["C12"] * (b in (8, 24))
+        c16 = tier == "thorough" or b in (8, 32, 128, 7, 24, 33, 65, 127)        # quick: half of the bases for the totality run
+        props = ["C01", "C02", "C06"] + (["C16"] if c16 else []) + (["C11"] if b not in NATIVE else []) + ["C12"] * (b in (8, 24))
         progs.append(Program(f"bd{b}", structs=[contiguous_struct(f"bd{b}", b, pl)], props=tuple(props)))
     progs.append(Program("all5", structs=[contiguous_struct("all5", 5, all_ranges(5))], props=("C01", "C02")))
     if tier == "thorough":
